@@ -269,6 +269,37 @@ def run(ctx):
                     rb.violate(k2, "match decided on %s, which is not derived from get()" % src, repo.loc(n.get("sp")))
     rb.require(6, "uses")
 
+    # LINEAGE: children and primitives run on the node's own input (or a cursor derived from it by matching), never on a
+    # Position rebuilt from it — a Position knows nothing of the start / end of a Span or Position sub-input
+    rlin = ctx.rule("R08-LINEAGE", "in every TypedNode / full-parse function, each child match and each cursor primitive operates on a cursor that "
+                    "descends from the function's own input by matching; none operates on `input.as_position()` or another rebuilt value")
+    fsl = facts.load("core", "fx_macros")
+    wl = nodes.World(fsl, ["pest_typed", "fx_macros"])
+    n_ev = 0
+    for key, pid, cid, loc, im in wl.twin_pairs():
+        if "::unicode::" in key and not key.endswith("LETTER"):
+            continue
+        for fid, mode in ((pid, "parse"), (cid, "check")):
+            try:
+                t = wl.tree(fid)
+            except edt.Unsupported:
+                continue
+            bad = None
+            for ev in classes.events(t):
+                lab = ev[2]
+                if lab[0] in ("MATCH", "NFMATCH", "FULL", "NFFULL") or lab[0].startswith(("match_", "skip", "next", "at_")):
+                    n_ev += 1
+                    if "untracked" in repr(lab):
+                        bad = "%s runs on %s" % (lab[0], edt.fmt_val(lab[2]) if len(lab) > 2 else "?")
+                        break
+            k2 = "%s [%s]" % (key, mode)
+            if bad:
+                rlin.violate(k2, bad + ": not the node's own input — the bounds of a Span / Position sub-input are lost", loc, edt.fmt(t))
+            else:
+                rlin.inst(k2, loc, nontrivial=False)
+    rlin.note("%d child-match / primitive events inspected" % n_ev)
+    rlin.require(150, "functions")   # 168 today (Unicode property nodes are represented by one)
+
     # CONV
     want_conv = {
         "pest_typed::position::Position<'i>": {"input": {"self.input", "input(self)"}, "start": {"pos(self)", "self.pos"},
